@@ -139,6 +139,10 @@ def containsToken (s m : Bytes) : Bool := containsTokenFuel m (s.length + 1) s
 
 /-- http_request_check_uri_strict(): bytes ≤ 32, 127 or 255 are invalid -/
 def uriCharInvalidStrict (b : UInt8) : Bool := b ≤ 32 || (b &&& 0x7f) = 0x7f
+/-- http_request_check_uri_fragment(): where the check of the target is left to URL
+    normalisation, the fragment (from the first '#'), which normalisation drops unread, is
+    checked here -/
+def fragmentInvalidStrict (uri : Bytes) : Bool := (uri.dropWhile (· ≠ 35)).any uriCharInvalidStrict
 /-- http_request_check_line_strict(): CTLs other than HT, and DEL, are invalid -/
 def lineCharInvalidStrict (b : UInt8) : Bool := (b < 32 && b ≠ ht) || b = 127
 
@@ -263,7 +267,7 @@ def parseReqline (o : Opts) (line : Bytes) (block : Bytes) : PRes :=
     let bad : Bool :=
       if o.headerStrict then
         -- (deferred to URL normalisation, except for CONNECT whose target is not normalised)
-        if o.ctrlsReject && r1.method ≠ ofString "CONNECT" then false
+        if o.ctrlsReject && r1.method ≠ ofString "CONNECT" then fragmentInvalidStrict uri'
         else uri'.any uriCharInvalidStrict
       else block.contains 0
     if bad then .error 400 else .ok { r1 with target := uri' }
